@@ -70,6 +70,8 @@ fx! {
 	c13q_fix_arr_0: [u32; 0], 4, true, 4;
 	c13q_fix_u8_none: u8, 4, false, 4; c13q_fix_opt_none: Option<u8>, 4, false, 4; c13q_fix_arr_opt_none: [Option<u8>; 2], 8, false, 6; c13q_fix_compact_none: Compact<u32>, 20, false, 19;
 	c13q_fix_tup_none: (u8, u16), 4, false, 5; c13q_fix_arr_u8_none: [u8; 4], 8, false, 6;
+	// types that do NOT report a fixed size today: if one ever does, the size must be its encoded length (not its memory size)
+	c13q_fix_arr_duration: [core::time::Duration; 2], 28, false, 30; c13q_fix_box_u32: Box<u32>, 8, false, 6;
 }
 
 /// "every type MARKED ConstEncodedLen encodes to exactly max_encoded_len()" must also hold for types that should not carry
@@ -97,6 +99,18 @@ cel_probe! {
 	c13q_celprobe_nested: [[Option<bool>; 2]; 1], 8, 6; c13q_celprobe_u32: u32, 8, 6;
 }
 fx! { c13q_fix_duration: Duration, 16, false, 14; c13q_fix_optionbool: OptionBool, 4, false, 4; c13q_fix_nz: NonZeroU32, 8, false, 6; c13q_fix_unit: (), 4, false, 4; c13q_fix_range: Range<u16>, 8, false, 6; }
+
+/// a user type with a hand-written codec whose wire size (5) differs from its in-memory size (8): arrays of it must report
+/// N x the ELEMENT's fixed encoded size
+#[derive(Clone, Copy)]
+pub struct Rec { pub a: u8, pub b: u32 }
+impl Encode for Rec { fn encode_to<W: parity_scale_codec::Output + ?Sized>(&self, d: &mut W) { self.a.encode_to(d); self.b.encode_to(d); } }
+impl Decode for Rec {
+	fn decode<I: parity_scale_codec::Input>(i: &mut I) -> Result<Self, parity_scale_codec::Error> { Ok(Rec { a: u8::decode(i)?, b: u32::decode(i)? }) }
+	fn encoded_fixed_size() -> Option<usize> { Some(5) }
+}
+impl Sym for Rec { fn sym(_c: usize) -> Self { Rec { a: kani::any(), b: kani::any() } } }
+fx! { c13q_fix_user_rec: Rec, 8, true, 8; c13q_fix_arr_user_rec: [Rec; 3], 16, true, 18; c13q_fix_arr_arr_user_rec: [[Rec; 2]; 1], 12, true, 14; }
 
 /// negative twin: "Compact<u32> never exceeds 4 bytes" must FAIL
 #[kani::proof]
